@@ -330,6 +330,8 @@ def encode(content, layout=None):
     body0 = build(0)
     nblocks = (4 + len(body0) + BLOCK - 1) // BLOCK
     nblocks += L.get("extra_param_blocks", 0)
+    if L.get("data_block_min"):        # spare blocks until the data start at (at least) this block number, e.g. 256..257: the pointer needs its high byte
+        nblocks = max(nblocks, min(255, L["data_block_min"] - L["param_block"]))
     assert nblocks <= 255
     data_block = L["param_block"] + nblocks
     body = build(data_block)
